@@ -16,9 +16,28 @@ def _LEN(c, P, t0, t1):
     return _summaries.LEN(P, t0, t1)
 
 
-@contract('C07', 'path.inv_arclength', params=[{'n': 3, '_no_bounded': True}, {'n': 4, '_no_bounded': True}], budget=120)
+def _arc_with_length_contract(c):
+    """an Arc in any stored state whose length() enters as the same kind of call-site contract
+    the Bezier classes have: LEN(state, t0, t1) >= 0, a function of the stored state and the
+    interval (its structure is proved in C06: arc_length_structure)"""
+    from contracts.c04 import arc_state
+    arc, p = arc_state(c)
+    P = [p['start'], p['end'], p['center'], ops.cx(p['rx'], p['ry']), ops.cx(p['rot'], p['theta']), ops.cx(p['delta'], 0)]
+
+    def arc_length(ip, f, args, kwargs):
+        vals = {'t0': 0, 't1': 1}
+        for nm, v in zip(['t0', 't1', 'error', 'min_depth'], args[1:]):
+            vals[nm] = v
+        vals.update(kwargs)
+        return _LEN(c, P, vals['t0'], vals['t1'])
+    if c.mode == 'sym':
+        c.ip.summaries['path.Arc.length'] = arc_length
+    return P, arc
+
+
+@contract('C07', 'path.inv_arclength', params=[{'n': 3, '_no_bounded': True}, {'n': 4, '_no_bounded': True}, {'n': 'arc', '_no_bounded': True}], budget=120)
 def bisection_on_a_curved_segment(c, n):
-    P, seg = mkseg(c, n)
+    P, seg = mkseg(c, n) if n != 'arc' else _arc_with_length_contract(c)
     s, s_tol = c.real('s'), c.real('s_tol')
     maxits = c.int('maxits')
     c.assume(ops.lt(0, s_tol))
@@ -122,11 +141,14 @@ def on_a_path(c, kinds):
         c.ensures('no-recursion-only-at-the-ends', ops.Or(ops.eq(s, 0), ops.eq(s, tot)))
 
 
-for _cls, _n in (('Line', 2), ('QuadraticBezier', 3), ('CubicBezier', 4), ('Path', 0)):
+for _cls, _n in (('Line', 2), ('QuadraticBezier', 3), ('CubicBezier', 4), ('Path', 0), ('Arc', -1)):
     def _mk(cls, n):
         def wrapper(c):
             if cls == 'Path':
                 obj, _, _ = mkpath(c, 'LC')
+            elif cls == 'Arc':
+                from contracts.c04 import arc_state
+                obj, _ = arc_state(c)
             else:
                 _, obj = mkseg(c, n)
             got = {}
